@@ -436,6 +436,37 @@ def c13_programs(tier):
         yield emit([("take", "g0"), st, ("take", "g1"), ("take", "g2")], guards={"pre": ["pre"], "inv": ["inv"]}, subinv=True)
 
 
+def c13_modular_programs(tier, start_index=0):
+    """Guards and interrupts of modular scenarios (compose blocks)."""
+    idx = start_index
+    subs = {
+        "T1": {"compose": [("wait",), ("wait",)]},
+    }
+    bodies = [
+        [("try", [("wait",), ("wait",), ("wait",)], [("c1", [("wait",)])]), ("wait",)],
+        [("try", [("do", ["T1"]), ("wait",)], [("c1", [("wait",), ("abort",)])]), ("wait",)],
+        [("loop", 2, [("try", [("wait",), ("wait",)], [("c1", [("break",)])]), ("wait",)]), ("wait",)],
+        [("wait",), ("do", ["T1"]), ("wait",)],
+        [("dofor", ["T1"], 1, "steps"), ("wait",)],
+        [("try", [("wait",), ("wait",)], [("c1", [("wait",)]), ("c2", [("do", ["T1"])])]), ("wait",)],
+    ]
+    for body in bodies:
+        for guards in ({}, {"inv": ["inv"]}, {"pre": ["pre"], "inv": ["inv"]}):
+            scen = dict(subs)
+            scen["G"] = dict(guards, compose=body)
+            scen["Main"] = {"terminate_after": (7, "steps"), "compose": [("wait",), ("do", ["G"]), ("loop", None, [("wait",)])]}
+            prog = {
+                "behaviors": {"B": {"body": [("loop", None, [("take", "a")])]}},
+                "monitors": {},
+                "agents": [("A1", "B")],
+                "scenarios": scen,
+                "main": "Main",
+                "top": {},
+            }
+            yield idx, prog
+            idx += 1
+
+
 def all_tables(names, steps):
     """Every truth table of the named conditions over steps 0..steps-1 (false afterwards)."""
     n = len(names) * steps
